@@ -86,3 +86,50 @@ pub proof fn lemma_header_counts(cs: Seq<ClassInProgress>, n: int)
         assert(cs.take(n).last() == cs[n - 1]);
     }
 }
+
+// generic tracking lemmas: `done` = bytes delivered so far (relative to sunk0)
+pub proof fn lemma_track_write(sunk0: Seq<u8>, done: Seq<u8>, chunk: Seq<u8>, canon: Seq<u8>)
+    requires is_prefix_of(done + chunk, canon),
+    ensures
+        forall|new: Seq<u8>| #[trigger] delivered_prefix(sunk0 + done, new, chunk) ==> delivered_prefix(sunk0, new, canon),
+        (sunk0 + done) + chunk == sunk0 + (done + chunk),
+{
+    let rest = canon.subrange((done + chunk).len() as int, canon.len() as int);
+    assert(canon =~= done + chunk + rest);
+    lemma_step(sunk0, done, chunk, rest, canon);
+}
+pub proof fn lemma_track_pad(sunk0: Seq<u8>, done: Seq<u8>, pad: int, canon: Seq<u8>)
+    requires pad >= 0, is_prefix_of(done + zeros(pad), canon),
+    ensures
+        forall|new: Seq<u8>, d: int| 0 <= d <= pad && #[trigger] ext_by_zeros(sunk0 + done, new, d) ==> delivered_prefix(sunk0, new, canon),
+        forall|new: Seq<u8>| #[trigger] ext_by_zeros(sunk0 + done, new, pad) ==> new == sunk0 + (done + zeros(pad)),
+{
+    let rest = canon.subrange((done + zeros(pad)).len() as int, canon.len() as int);
+    assert(canon =~= done + zeros(pad) + rest);
+    lemma_pad_step(sunk0, done, pad, rest, canon);
+}
+
+pub proof fn lemma_prefix_of_concat(a: Seq<u8>, b: Seq<u8>)
+    ensures is_prefix_of(a, a + b),
+{ assert((a + b).subrange(0, a.len() as int) =~= a); }
+pub proof fn lemma_prefix_trans(a: Seq<u8>, b: Seq<u8>, c: Seq<u8>)
+    requires is_prefix_of(a, b), is_prefix_of(b, c),
+    ensures is_prefix_of(a, c),
+{ assert(c.subrange(0, a.len() as int) =~= b.subrange(0, a.len() as int)); }
+// all cumulative prefixes of a left-nested nine-fold concatenation are prefixes of the whole
+pub proof fn lemma_prefix_chain(c: Seq<u8>, x1: Seq<u8>, x2: Seq<u8>, x3: Seq<u8>, x4: Seq<u8>, x5: Seq<u8>, x6: Seq<u8>, x7: Seq<u8>, x8: Seq<u8>, x9: Seq<u8>)
+    requires c == Seq::<u8>::empty() + x1 + x2 + x3 + x4 + x5 + x6 + x7 + x8 + x9,
+    ensures ({ let p0 = Seq::<u8>::empty(); let p1 = p0 + x1; let p2 = p1 + x2; let p3 = p2 + x3; let p4 = p3 + x4; let p5 = p4 + x5; let p6 = p5 + x6; let p7 = p6 + x7; let p8 = p7 + x8;
+        is_prefix_of(p1, c) && is_prefix_of(p2, c) && is_prefix_of(p3, c) && is_prefix_of(p4, c) && is_prefix_of(p5, c) && is_prefix_of(p6, c) && is_prefix_of(p7, c) && is_prefix_of(p8, c) && is_prefix_of(c, c) }),
+{
+    let p0 = Seq::<u8>::empty(); let p1 = p0 + x1; let p2 = p1 + x2; let p3 = p2 + x3; let p4 = p3 + x4; let p5 = p4 + x5; let p6 = p5 + x6; let p7 = p6 + x7; let p8 = p7 + x8;
+    assert(c.subrange(0, c.len() as int) =~= c);
+    lemma_prefix_of_concat(p8, x9);
+    lemma_prefix_of_concat(p7, x8); lemma_prefix_trans(p7, p8, c);
+    lemma_prefix_of_concat(p6, x7); lemma_prefix_trans(p6, p7, c);
+    lemma_prefix_of_concat(p5, x6); lemma_prefix_trans(p5, p6, c);
+    lemma_prefix_of_concat(p4, x5); lemma_prefix_trans(p4, p5, c);
+    lemma_prefix_of_concat(p3, x4); lemma_prefix_trans(p3, p4, c);
+    lemma_prefix_of_concat(p2, x3); lemma_prefix_trans(p2, p3, c);
+    lemma_prefix_of_concat(p1, x2); lemma_prefix_trans(p1, p2, c);
+}
